@@ -4,6 +4,7 @@ import (
 	"bytes"
 	"encoding/base64"
 	"encoding/json"
+	"fmt"
 
 	"github.com/nspcc-dev/neo-go/pkg/io"
 )
@@ -13,6 +14,11 @@ type StateHeight struct {
 	Local     uint32 `json:"localrootindex"`
 	Validated uint32 `json:"validatedrootindex"`
 }
+
+// maxProofNodes is the maximum number of nodes in a proof. It's far above what
+// the longest path of the trie can have: two nodes (an extension and a branch)
+// per half-byte of a key of at most 68 bytes and a leaf.
+const maxProofNodes = 1024
 
 // ProofWithKey represents a key-proof pair.
 type ProofWithKey struct {
@@ -49,8 +55,19 @@ func (p *ProofWithKey) EncodeBinary(w *io.BinWriter) {
 func (p *ProofWithKey) DecodeBinary(r *io.BinReader) {
 	p.Key = r.ReadVarBytes()
 	sz := r.ReadVarUint()
+	if r.Err != nil {
+		return
+	}
+	if sz > maxProofNodes {
+		r.Err = fmt.Errorf("proof is too long (%d nodes)", sz)
+		return
+	}
 	for range sz {
-		p.Proof = append(p.Proof, r.ReadVarBytes())
+		node := r.ReadVarBytes()
+		if r.Err != nil {
+			return
+		}
+		p.Proof = append(p.Proof, node)
 	}
 }
 
